@@ -142,12 +142,14 @@ func guardsAt(b *ssa.BasicBlock, e ssa.Value) map[string]bool {
 				}
 			}
 		}
-		if lk, ok := cf.Cond.(*ssa.Lookup); ok && cf.True && derivesFromElem(lk.Index, e, 3) {
-			out["in-set"] = true // membership in a set keyed by a field of the element
+		// membership in a set keyed by a field of the element; the set must have been built for this call (a map made
+		// in this function, or handed in as a parameter) — a pooled or long-lived map still holds other requests' members
+		if lk, ok := cf.Cond.(*ssa.Lookup); ok && cf.True && derivesFromElem(lk.Index, e, 3) && perCallMap(lk.X, 4) {
+			out["in-set"] = true
 		}
 		// the comma-ok spelling (`_, ok := set[k]; ok`, sets of struct{}) …
 		if ex, ok := cf.Cond.(*ssa.Extract); ok && cf.True && ex.Index == 1 {
-			if lk, ok := ex.Tuple.(*ssa.Lookup); ok && lk.CommaOk && derivesFromElem(lk.Index, e, 3) {
+			if lk, ok := ex.Tuple.(*ssa.Lookup); ok && lk.CommaOk && derivesFromElem(lk.Index, e, 3) && perCallMap(lk.X, 4) {
 				out["in-set"] = true
 			}
 		}
@@ -752,4 +754,44 @@ func (p *provEngine) elemOf(v ssa.Value, depth int, seen map[ssa.Value]bool) (sr
 		}
 	}
 	return nil, false, "returned endpoint is not an element of a slice: " + strings.TrimSpace(v.String())
+}
+
+
+// perCallMap: the map value was created in this function (make / literal) or is one of its parameters.
+func perCallMap(v ssa.Value, d int) bool {
+	if v == nil || d == 0 {
+		return false
+	}
+	switch x := v.(type) {
+	case *ssa.MakeMap:
+		return true
+	case *ssa.Parameter:
+		return true
+	case *ssa.Phi:
+		for _, e := range x.Edges {
+			if !perCallMap(e, d-1) {
+				return false
+			}
+		}
+		return len(x.Edges) > 0
+	case *ssa.ChangeType:
+		return perCallMap(x.X, d-1)
+	case *ssa.UnOp:
+		if al, ok := x.X.(*ssa.Alloc); ok {
+			st := cellStores(al)
+			for _, s := range st {
+				if !perCallMap(s, d-1) {
+					return false
+				}
+			}
+			return len(st) > 0
+		}
+		if fv, ok := x.X.(*ssa.FreeVar); ok { // captured local of the enclosing function
+			_ = fv
+			return true
+		}
+	case *ssa.FreeVar:
+		return true
+	}
+	return false
 }
